@@ -1087,19 +1087,11 @@ fn pad_integral(
         Err(_) => 0,
     };
 
-    if pad != 0 && f.sign_aware_zero_pad() {
-        for _ in 0..pad {
-            f.write_char('0')?;
-        }
-        pad = 0;
-    }
-
-    if f.sign_plus() {
-        f.write_char('+')?;
-    }
-    if f.alternate() {
-        f.write_str(prefix)?;
-    }
+    let zero_pad = if f.sign_aware_zero_pad() {
+        mem::take(&mut pad)
+    } else {
+        0
+    };
 
     let fill_char = f.fill();
     if pad != 0 {
@@ -1112,6 +1104,16 @@ fn pad_integral(
         for _ in 0..pad_front {
             f.write_char(fill_char)?;
         }
+    }
+
+    if f.sign_plus() {
+        f.write_char('+')?;
+    }
+    if f.alternate() {
+        f.write_str(prefix)?;
+    }
+    for _ in 0..zero_pad {
+        f.write_char('0')?;
     }
 
     write_digits(f)?;
